@@ -21,9 +21,7 @@ WHAT = 'pipeline exceptions terminate cleanly without leaks'
 VAC = ('Terminated',)
 
 
-def run(ctx):
-    thorough = ctx.tier == 'thorough'
-    exe = pc.build(ctx)
+def _e1(ctx, thorough):
     ctx.check_model(pc.SPEC, 'MCPipeline.tla', 'MC_throw.cfg', WHAT, workers=4, vacuity_exempt=VAC,
                     label='11 throwing configurations: generator/transform/sink x first/middle/last x limits x pool 0..2')
     pc.negative_control(ctx, 'MC_neg_leak.cfg', 'NoLeak', 'skipped wrapped items / queue leftovers leak before the fix')
@@ -33,6 +31,13 @@ def run(ctx):
                         label='larger throwing configurations')
         ctx.check_model(pc.SPEC, 'MCPipeline.tla', 'MC_live_throw.cfg', WHAT + ' (termination under fairness)', workers=4,
                         vacuity_exempt=VAC + ('PlWuDeq',), timeout=1500, label='liveness: <>Returned with throws')
+
+
+def run(ctx):
+    thorough = ctx.tier == 'thorough'
+    exe = pc.build(ctx)
+    if not pc.traces_only():
+        _e1(ctx, thorough)
     pc.cleanup()
     rng = random.Random(ctx.seed + 29)
     follow = '|' + pc.cfg(1, [1, 1], 2, 2)
